@@ -25,6 +25,7 @@
 //!   -> 0 <canonical value> | 1 errcode | 2 (panic)
 //! Mode 2 (containment): 2 <container> <needle>
 //!   -> [v in c, v not in c, v is in(c), v in (c|list), c[v] is defined (maps only, else 9)]   0/1 or 100+err
+//! Mode 3 (chains): 3 <a> <b> <c> haslit [str la] [str lb] [str lc] -> answers of the CHAINS templates over variables, then over literals
 //! Canonical value = description with integer width 0 and iterable sizedness 0; strings report the safe flag.
 use std::collections::hash_map::DefaultHasher;
 use std::fmt;
@@ -218,6 +219,14 @@ fn opt_flag(x: i64) -> Option<bool> {
     }
 }
 
+/// the chains of mode 3 (A, B, C are replaced by variable names or literals); keep in step with Runner.v::chains
+const CHAINS: &[&str] = &[
+    "A in B", "A not in B", "A not in B != C", "A in B != C", "A in B == C", "A not in B == C",
+    "C != A not in B", "C == A in B", "A < C in B", "A <= C not in B",
+    "A == C", "A != C", "A < C", "A <= C", "A > C", "A >= C",
+    "A < C < A", "A <= C <= A", "A == C == A", "A != C != A", "A < C != A", "A >= C > A",
+];
+
 fn main() {
     let env = Environment::new();
     serve(2, |c| {
@@ -238,6 +247,32 @@ fn main() {
             out.push(tmpl_bool(&env, "a == b", &a, &b));
             out.push(tmpl_bool(&env, "a in [b]", &a, &b));
             out.push(tmpl_bool(&env, "{b: 1}[a] is defined", &a, &b));
+        } else if mode == 3 {
+            // comparison / containment chains: 3 <a> <b> <c> haslit [str la] [str lb] [str lc]
+            // -> the answers of CHAINS with the operands as context variables, then (haslit = 1) with the operands
+            //    spelled as literals (these are constant-folded at compile time)
+            let a = value(&env, c);
+            let b = value(&env, c);
+            let cc = value(&env, c);
+            let haslit = c.i64() != 0;
+            let lits = if haslit { Some([c.str(), c.str(), c.str()]) } else { None };
+            let ctx: Value = [("a", a), ("b", b), ("c", cc)]
+                .into_iter()
+                .collect::<std::collections::BTreeMap<&str, Value>>()
+                .into();
+            let mut run = |names: [&str; 3]| {
+                for t in CHAINS {
+                    let src = t.replace('A', names[0]).replace('B', names[1]).replace('C', names[2]);
+                    out.push(match env.compile_expression(&src).and_then(|e| e.eval(ctx.clone())) {
+                        Ok(v) => if v.is_true() { "1" } else { "0" }.into(),
+                        Err(e) => (100 + err_code(e.kind())).to_string(),
+                    });
+                }
+            };
+            run(["a", "b", "c"]);
+            if let Some(l) = &lits {
+                run([l[0].as_str(), l[1].as_str(), l[2].as_str()]);
+            }
         } else if mode == 2 {
             // containment: 2 <container> <needle> -> [v in c, v not in c, v is in(c), v in (c|list), c[v] is defined (maps only, else 9)]
             let cont = value(&env, c);
